@@ -7,13 +7,26 @@ from vp import build
 from vp.project import NAN, enc_int, enc_scaled
 
 
-def cost_scale(measure, s):
-    return {"sad": s, "ssd": s * s, "census": 1, "zncc": 100}[measure]
+def cost_scale(measure, s, iq=1):
+    """iq: image quantum (radiometry = integer / iq), so SAD is an integer once multiplied by s*iq"""
+    return {"sad": s * iq, "ssd": s * s * iq * iq, "census": 1, "zncc": 100}[measure]
+
+
+# mask conventions (valid_pixels, no_data_mask, code used for "invalid"): the two images of a pair need not share one
+CONVENTIONS = [(0, 1, 2), (1, 0, 2), (0, 2, 1), (7, 3, 1), (2, 1, 0)]
+
+
+def code_mask(m, conv):
+    """abstract mask (0 valid, 1 nodata, other invalid) -> the image's own coding"""
+    v, n, x = conv
+    m = np.asarray(m)
+    return np.where(m == 0, v, np.where(m == 1, n, x)).astype(np.int16)
 
 
 def gen_problem(rng, *, rows, cols, win, s, measure, disp, vmax=3, nbands=1, mask_mode="none",
-                grid=False, inv=-9999):
-    """A random small stereo problem with integer radiometry.
+                grid=False, inv=-9999, iq=1, conv=None):
+    """A random small stereo problem with integer radiometry (in units of 1/iq).
+    conv: None (both images use valid_pixels 0 / no_data_mask 1) or a pair of CONVENTIONS entries (left, right).
     disp = (a, b) global interval; grid: per-pixel intervals inside [a, b];
     mask_mode: none | left | right | both  (a few nodata / invalid pixels)."""
     L = rng.randint(0, vmax + 1, size=(nbands, rows, cols))
@@ -53,7 +66,7 @@ def gen_problem(rng, *, rows, cols, win, s, measure, disp, vmax=3, nbands=1, mas
     # the right image may store its bands in another order: a band is selected by NAME
     rbands = None if bands is None else [bands[k] for k in rng.permutation(nbands)]
     return dict(rows=rows, cols=cols, win=win, s=s, measure=measure, L=L, R=R, mL=mL, mR=mR, disp=d,
-                bands=bands, rbands=rbands, band=band, inv=inv)
+                bands=bands, rbands=rbands, band=band, inv=inv, iq=iq, conv=conv)
 
 
 def global_interval(prob):
@@ -95,21 +108,29 @@ def problem_json(prob, mirror=False):
     return {"rows": rows, "cols": cols, "win": prob["win"], "s": prob["s"], "measure": prob["measure"], "band": band,
             "L": enc_int(L), "R": enc_int(R), "mL": _mask3(mL, rows, cols), "mR": _mask3(mR, rows, cols),
             "dmin8": enc_int(np.rint(np.asarray(dmin, dtype=np.float64) * 8)), "dmax8": enc_int(np.rint(np.asarray(dmax, dtype=np.float64) * 8)),
-            "gmin": int(gmin), "gmax": int(gmax)}
+            "gmin": int(gmin), "gmax": int(gmax), "iq": int(prob.get("iq", 1))}
 
 
 def make_datasets(prob, row0=0, col0=0):
     d = prob["disp"]
     disp = (d[1], d[2])
-    L = prob["L"][0] if prob["bands"] is None else prob["L"]
-    R = prob["R"][0] if prob["bands"] is None else prob["R"]
-    left = build.make_image(L, mask=prob["mL"], disp=disp, bands=prob["bands"], row0=row0, col0=col0)
+    iq = prob.get("iq", 1)
+    L = (prob["L"][0] if prob["bands"] is None else prob["L"]) / iq
+    R = (prob["R"][0] if prob["bands"] is None else prob["R"]) / iq
+    mL, mR, aL, aR = prob["mL"], prob["mR"], None, None
+    if prob.get("conv") is not None:
+        cL, cR = prob["conv"]
+        aL = {"valid_pixels": cL[0], "no_data_mask": cL[1]}
+        aR = {"valid_pixels": cR[0], "no_data_mask": cR[1]}
+        mL = None if mL is None else code_mask(mL, cL)
+        mR = None if mR is None else code_mask(mR, cR)
+    left = build.make_image(L, mask=mL, disp=disp, bands=prob["bands"], row0=row0, col0=col0, attrs=aL)
     rdisp = prob.get("rdisp")
     rb = prob.get("rbands")
     if rb is not None:
         R = np.stack([R[prob["bands"].index(n)] for n in rb])     # stored in the right image's own band order
-    right = build.make_image(R, mask=prob["mR"], disp=rdisp, bands=rb if rb is not None else prob["bands"],
-                             row0=row0, col0=col0)
+    right = build.make_image(R, mask=mR, disp=rdisp, bands=rb if rb is not None else prob["bands"],
+                             row0=row0, col0=col0, attrs=aR)
     return left, right
 
 
@@ -121,7 +142,7 @@ def mc_cfg(prob):
 
 
 def enc_cv(cv_ds, prob):
-    return enc_scaled(cv_ds["cost_volume"].data, cost_scale(prob["measure"], prob["s"]),
+    return enc_scaled(cv_ds["cost_volume"].data, cost_scale(prob["measure"], prob["s"], prob.get("iq", 1)),
                       tol=0.5001 if prob["measure"] == "zncc" else 1e-3)
 
 
